@@ -331,6 +331,17 @@ theorem C01_blocks (limit : Nat) (p : WProblem) (h : p.OK limit) :
   have := C01_blocks_general limit p [] h (by intro l hl; cases hl)
   simpa using this
 
+/-- **C01_write_file** — the same for `write_to_file` itself, which drops the trailing blanks of
+    every line the objects format to: the hypothesis is about the lines as they reach the file. -/
+theorem C01_write_file (limit : Nat) (p : WProblem) (h : p.strip.OK limit) :
+    (blocks limit (writeFile p)).cells = p.strip.cells.map readCard ∧
+    (blocks limit (writeFile p)).surfaces = p.strip.surfaces.map readCard ∧
+    (blocks limit (writeFile p)).data = p.strip.data.map readCard ∧
+    (blocks limit (writeFile p)).title = rstrip p.strip.title ∧
+    (blocks limit (writeFile p)).message = p.strip.message.map rstrip := by
+  have := C01_blocks limit p.strip h
+  exact ⟨this.2.2.1, this.2.2.2.1, this.2.2.2.2.1, this.2.1, this.1⟩
+
 /-! ### Non-vacuity: a concrete non-trivial problem satisfies `WProblem.OK` -/
 
 def exProblem : WProblem :=
